@@ -305,13 +305,14 @@ static int cmd_raw(char** tok, int nt)
 
 /* ------------------------------------------------------------------ control-format container with several mixed ACF-CAN messages
  * (growth: AcfContainer.tla)
- * CT <ctrl: Tscf|Ntscf> <place> <off> <arenahex> <msgs: k:idhex8:fd:payhex;... or ->      k: f (full) | b (brief)
+ * CT <ctrl: Tscf|Ntscf> <place> <off> <arenahex> <msgs: k:idhex:fd:payhex;... or ->      k: f (full CAN) | b (brief CAN) | g (GPC, 48-bit id)
  *   assembles the container with the library the way the tutorial / talkers do (offset advanced by the length READ BACK),
  *   writes the control header's data length, then walks the result by the generic ACF prefix.
  * answer: R status used 0 0 arena canary walk=<k:id:fd:eff:payhex;...>                                                   */
 #include "avtp/acf/Tscf.h"
 #include "avtp/acf/Ntscf.h"
 #include "avtp/acf/AcfCommon.h"
+#include "avtp/acf/Gpc.h"
 typedef struct { int tscf; uint8_t* arena; size_t alen; char* msgs; uint64_t used; char* walk; size_t wcap; size_t w; } CtCtx;
 static int ct_hex(int ch) { return ch >= '0' && ch <= '9' ? ch - '0' : ch >= 'a' && ch <= 'f' ? ch - 'a' + 10 : -1; }
 static void ct_put(CtCtx* c, const char* t) { while (*t && c->w + 1 < c->wcap) c->walk[c->w++] = *t++; c->walk[c->w] = 0; }
@@ -325,22 +326,31 @@ static void ct_fn(void* p)
     char* s = c->msgs;
     while (s && *s && *s != '-') {
         char k = s[0]; char* q = s + 2;
-        uint32_t id = 0; while (ct_hex(*q) >= 0) id = (id << 4) | (uint32_t)ct_hex(*q++);
+        uint64_t id = 0; while (ct_hex(*q) >= 0) id = (id << 4) | (uint64_t)ct_hex(*q++);
         q++;
         int fd = *q++ == '1'; q++;
         size_t n = 0;
         while (ct_hex(q[0]) >= 0 && ct_hex(q[1]) >= 0 && n < sizeof pay) { pay[n++] = (uint8_t)(ct_hex(q[0]) * 16 + ct_hex(q[1])); q += 2; }
         if (*q == '-') q++;
         Avtp_CanVariant_t var = fd ? AVTP_CAN_FD : AVTP_CAN_CLASSIC;
-        if (k == 'f') {
+        if (k == 'g') {          /* as the hello-world talker does: header through the library, payload and zero padding by the application */
+            Avtp_Gpc_t* m = (Avtp_Gpc_t*)(c->arena + pos);
+            size_t pad = (4 - n % 4) % 4;
+            Avtp_Gpc_Init(m);
+            Avtp_Gpc_SetGpcMsgId(m, id);
+            Avtp_Gpc_SetAcfMsgLength(m, (uint16_t)((AVTP_GPC_HEADER_LEN + n + pad) / 4));
+            memcpy(c->arena + pos + AVTP_GPC_HEADER_LEN, pay, n);
+            memset(c->arena + pos + AVTP_GPC_HEADER_LEN + n, 0, pad);
+            pos += (size_t)Avtp_Gpc_GetAcfMsgLength(m) * 4;
+        } else if (k == 'f') {
             Avtp_Can_t* m = (Avtp_Can_t*)(c->arena + pos);
             Avtp_Can_Init(m);
-            Avtp_Can_CreateAcfMessage(m, id, pay, (uint16_t)n, var);
+            Avtp_Can_CreateAcfMessage(m, (uint32_t)id, pay, (uint16_t)n, var);
             pos += (size_t)Avtp_Can_GetAcfMsgLength(m) * 4;
         } else {
             Avtp_CanBrief_t* m = (Avtp_CanBrief_t*)(c->arena + pos);
             Avtp_CanBrief_Init(m);
-            Avtp_CanBrief_SetPayload(m, id, pay, (uint16_t)n, var);
+            Avtp_CanBrief_SetPayload(m, (uint32_t)id, pay, (uint16_t)n, var);
             pos += (size_t)Avtp_CanBrief_GetAcfMsgLength(m) * 4;
         }
         s = (*q == ';') ? q + 1 : NULL;
@@ -357,7 +367,16 @@ static void ct_fn(void* p)
         Avtp_AcfCommon_t* a = (Avtp_AcfCommon_t*)(c->arena + h);
         unsigned t = (unsigned)Avtp_AcfCommon_GetAcfMsgType(a);
         size_t ql = Avtp_AcfCommon_GetAcfMsgLength(a);
-        if (ql == 0 || (t != AVTP_ACF_TYPE_CAN && t != AVTP_ACF_TYPE_CAN_BRIEF) || h + ql * 4 > limit) { ct_put(c, "bad;"); break; }
+        if (ql == 0 || (t != AVTP_ACF_TYPE_CAN && t != AVTP_ACF_TYPE_CAN_BRIEF && t != AVTP_ACF_TYPE_GPC) || h + ql * 4 > limit) { ct_put(c, "bad;"); break; }
+        if (t == AVTP_ACF_TYPE_GPC) {
+            uint64_t gid = Avtp_Gpc_GetGpcMsgId((Avtp_Gpc_t*)a);
+            ct_put(c, "g:"); ct_puthex(c, (uint32_t)(gid >> 32), 4); ct_puthex(c, (uint32_t)gid, 8); ct_put(c, ":0:0:");
+            for (size_t i = AVTP_GPC_HEADER_LEN; i < ql * 4; i++) ct_puthex(c, c->arena[h + i], 2);
+            if (ql * 4 == AVTP_GPC_HEADER_LEN) ct_put(c, "-");
+            ct_put(c, ";");
+            h += ql * 4;
+            continue;
+        }
         uint32_t id; unsigned fd, eff; long plen; const uint8_t* pl;
         if (t == AVTP_ACF_TYPE_CAN) {
             Avtp_Can_t* m = (Avtp_Can_t*)a;
